@@ -130,6 +130,19 @@ class Adapter:
             setattr(o, n, copy.deepcopy(src[n]))
         return o
 
+    def pack_into(self, o, buf, off, **kw):
+        """serialize in place into the caller's buffer at an offset; None when the counterpart has no such interface"""
+        if self.kind == 'construct':
+            return None
+        o.pack(buffer=buf, offset=off, **kw)
+        return buf
+
+    def pack_kw(self, o, **kw):
+        r = o.pack(**kw)
+        if isinstance(r, tuple):
+            r = r[0]
+        return bytes(r)
+
     def pack(self, o):
         if self.kind == 'construct':
             return bytes(self.target.build(o))
